@@ -302,6 +302,27 @@ def matcher(P, R):
                 return not any(is_field(g[0], 'class', RULE_REC) and g[1] == '==' and const_of(g[2]) == 0 for g in gs)
             okv = bool(cls) and bool(nms) and not oth and all(null_known(d) for d in nms) and all(nonnull_or_first(d) for d in cls)
         R.ob('C11.FMT.1', okv, s, 'the class assigned is the rule\'s class value or else its name (%s)' % sx(v), key='class-value')
+    # ... and a rule is passed over only for failing one of its criteria: the immediate reason of every "no match" return
+    # is the test of a criterion (a glob, the prefix test, the service's OK) - or, for an equivalent spelling, a
+    # comparison that involves one of the rule's criterion members and nothing else of the rule
+    crit_fields = set(CRITERIA)
+    for t in m.sites():
+        if not (t.ev['k'] == 'ret' and const_of(t.ev.get('val')) == 0):
+            continue
+        for e in m.inn[t.bid]:
+            r = rules.edge_rel(e)
+            if not r:
+                continue
+            l = r[0]
+            ok = isinstance(l, dict) and l.get('k') == 'callref' and l.get('callee') in ('fnmatch', 'irc_check_mask', 'iauth_xreply_ok', 'strcmp', 'strcasecmp')
+            if not ok:
+                mem = {x.get('field') for x in walk(l) if isinstance(x, dict) and x.get('k') == 'mem' and x.get('rec') == RULE_REC}
+                ok = bool(mem) and mem <= crit_fields
+            if not ok and is_var(l):
+                d = m.single_def(l['name'])
+                v = d[1] if d else None
+                ok = isinstance(v, dict) and any(isinstance(x, dict) and x.get('k') == 'callref' and x.get('callee') in ('fnmatch', 'irc_check_mask', 'iauth_xreply_ok') for x in walk(v))
+            R.ob('C11.GRD.2', ok, t, 'this "no match" is returned for failing a criterion of the rule (reason: %s %s %s)' % (sx(r[0]), r[1], sx(r[2])), key='miss-reason')
     # the account is cut at ':' by an exact prefix copy (or used whole)
     cuts = [s for s in m.calls() if s.ev.get('callee') in bnd.SINKS and is_var(root_var(s.ev['args'][0])) and root_var(s.ev['args'][0]).get('sc') == 'local'
             and any(on_path(x, 'account', core.REQ_REC) for a in s.ev['args'][1:] for x in walk(a))]
